@@ -247,18 +247,10 @@ class Layouts:
                     self._loop_effects(g.iter, g.target, [(v.elt, st)], [v.elt], st, bool(g.ifs))
                 continue
             if isinstance(st, ast.For):
-                effs = []
-                for n in st.body:
-                    if isinstance(n, ast.Expr) and self._is_effect(n.value):
-                        effs.append((n.value, n))
-                    elif isinstance(n, (ast.For, ast.While, ast.If, ast.With, ast.Try)):
-                        # effects under further control flow inside the loop are not described
-                        for m in ast.walk(n):
-                            if isinstance(m, ast.Call) and self._is_effect(m):
-                                k = self._key(m.func.value)
-                                if k in self.state:
-                                    self.state[k] = UNKNOWN
-                self._loop_effects(st.iter, st.target, effs, st.body, st, False)
+                add = self._loop_layouts(st, {}, 0)
+                for key, lay in add.items():
+                    if key in self.state:
+                        self._add(key, lay)
                 continue
             if isinstance(st, ast.If):
                 # validation arms (ending in raise) are skipped; otherwise both arms must agree
@@ -296,6 +288,39 @@ class Layouts:
                         k = self._key(m.func.value)
                         if k in self.state:
                             self.state[k] = UNKNOWN
+
+    def _loop_layouts(self, loop, env, depth):
+        """{key: layout contributed by this for loop} - append / extend effects directly in the body and in nested for loops;
+        an effect under any other control flow makes the key's layout undetermined."""
+        it, env2 = self._bind_iter(loop.iter, loop.target, loop.body, loop, env, depth)
+        per_key = {}
+
+        def add(key, lay):
+            cur = per_key.get(key, ())
+            per_key[key] = UNKNOWN if (cur is UNKNOWN or lay is UNKNOWN) else cur + lay
+        for n in loop.body:
+            if isinstance(n, ast.Expr) and self._is_effect(n.value):
+                eff = self._effect(n.value, n, env2, depth + 1)
+                if eff is not None:
+                    add(eff[0], eff[1])
+            elif isinstance(n, ast.For) and not n.orelse:
+                for key, lay in self._loop_layouts(n, env2, depth + 1).items():
+                    add(key, lay)
+            elif isinstance(n, (ast.While, ast.If, ast.With, ast.Try, ast.For)):
+                for m in ast.walk(n):
+                    if isinstance(m, ast.Call) and self._is_effect(m):
+                        k = self._key(m.func.value)
+                        if k is not None:
+                            per_key[k] = UNKNOWN
+        out = {}
+        for key, body in per_key.items():
+            if body is UNKNOWN:
+                out[key] = UNKNOWN
+            elif len(body) == 1 and body[0][0] == "item":
+                out[key] = self._simplify((("each", it, body[0][1]),), depth)
+            else:
+                out[key] = (("flat", it, body),)
+        return out
 
     def _loop_effects(self, it_node, target, effs, used_in, at, filtered):
         it, env = self._bind_iter(it_node, target, used_in, at, {}, 0)
